@@ -3,7 +3,14 @@ import DefraModel.Bytes
 import DefraModel.Encoding.Int
 import DefraModel.Encoding.Scalars
 import DefraModel.Encoding.FieldValue
+import DefraModel.Crdt.Model
 import DefraModel.Proofs.BytesLemmas
 import DefraModel.Proofs.IntOrder
 import DefraModel.Proofs.ScalarOrder
+import DefraModel.Proofs.CrdtAlgebra
+import DefraModel.Proofs.CrdtHeads
+import DefraModel.Proofs.CrdtFolds
+import DefraModel.Props.C01
+import DefraModel.Props.C02
+import DefraModel.Props.C04
 import DefraModel.Props.C17
